@@ -372,12 +372,12 @@ def run_shard(tier, seed, shard, nshards, res):
         for i in range(50 if tier == 'quick' else 1000):
             rng = common.rng_for(seed, 'c20a', shard, i)
             averager_schedule(dc, sc, res, rng, 'c20 averager seed=%d shard=%d i=%d' % (seed, shard, i))
-            if res.counters.get('violations_raw', 0) > 6:
+            if res.new_violations() > 6:
                 return
         for i in range(25 if tier == 'quick' else 500):
             rng = common.rng_for(seed, 'c20t', shard, i)
             throttle_run(dc, sc, res, rng, 'c20 throttle seed=%d shard=%d i=%d' % (seed, shard, i))
-            if res.counters.get('violations_raw', 0) > 6:
+            if res.new_violations() > 6:
                 return
         probe.reset()
         for i in range(1 if tier == 'quick' else 6):
